@@ -180,13 +180,15 @@ Definition check_case (c : case) : N :=
                               | Panic => Panic
                               end) arrs in
       let reject := fun o => (o =? 1) || (o =? 2) in
-      (* model: the command line rejects an ill-formed value (usage error); every other source
-         hands v to Value.Set (an error there is dropped, flagset.go:134,145) and Load goes on;
-         all sources that hand over v behave alike; nothing panics *)
-      let usage_ok := all2 (fun m o => Bool.eqb (o =? 2) (out_eqb (opt_eqb beq) m (Err 1))
-                                       && negb (o =? 3)
-                                       && (out_eqb (opt_eqb beq) m (Err 1)
-                                           || out_eqb (opt_eqb beq) m (Ok (Some v)))) ms outs in
+      (* model: every source rejects a value the option's type rejects (the command line as a
+         usage error, the others as a returned error: same class) and otherwise hands v to
+         Value.Set; all sources that hand over v behave alike; nothing panics; the usage exit is
+         the command line's only *)
+      let usage_ok := all2 (fun m o =>
+                              negb (o =? 3)
+                              && (if out_eqb (opt_eqb beq) m (Err 1) then reject o
+                                  else out_eqb (opt_eqb beq) m (Ok (Some v)) && negb (o =? 2))) ms outs
+                      && all2 (fun k o => (k =? 1) || negb (o =? 2)) srcs outs in
       let handed := map snd (filter (fun mo => out_eqb (opt_eqb beq) (fst mo) (Ok (Some v)))
                                     (combine ms outs)) in
       let alike := match handed with
@@ -204,8 +206,7 @@ Definition check_case (c : case) : N :=
                      | o :: r => forallb (fun x => Bool.eqb (reject x) (reject o)) r
                      end
                   && all_eqs in
-      let region := if wellformed then None else Some 3 in
-      verdict same spec region true
+      verdict same spec None true
   | CUiAddr v out =>
       let m := ui_addr_step v in
       let same := match m with
